@@ -246,3 +246,551 @@ def vc_swap_blades(H, lengths=range(0, MAXLEN + 1)):
     for m in (0, 1, 4):
         run_exit(m, True)
         run_exit(m, False)
+
+
+# =====================================================================================
+# _compute_sign  (nested in Algebra._prepare_signs):  sign = (-1)^swaps * prod_{c in eliminated} met(c)
+# =====================================================================================
+from kvc.models import SymSeq, sint, CompSeq, Text   # noqa: E402
+from kvc.rec import Rec, sym, same          # noqa: E402
+
+
+class NameOf:
+    """self.bin2canon[K]: the canonical name of key K (opaque); name[1:] is its spelling."""
+
+    def __init__(self, K):
+        self.K = K
+
+    def kvc_getitem(self, interp, idx):
+        if isinstance(idx, slice) and idx.start == 1 and idx.stop is None and idx.step is None:
+            return SpellOf(self.K)
+        raise OutOfSubset('use of a blade name other than name[1:]')
+
+
+class SpellOf:
+    def __init__(self, K):
+        self.K = K
+
+
+class Bin2Canon:
+    def kvc_getitem(self, interp, K):
+        return NameOf(K)
+
+
+class Signature:
+    """self.signature as (zero?, negative?) of entry i; reading outside 0 <= i < d is a safety obligation
+    (a negative index would silently wrap in numpy)."""
+
+    def __init__(self, d):
+        bv = z3.BitVecSort(WB)
+        self.zf = z3.Function('sig_zero', bv, z3.BoolSort())
+        self.nf = z3.Function('sig_neg', bv, z3.BoolSort())
+        self.d = d
+
+    def kvc_getitem(self, interp, i):
+        if isinstance(i, int):
+            i = SKey.const(i)
+        interp.ctx.safety('signature index within 0 <= i < d', z3.And(i.t >= 0, i.t < self.d.t))
+        return SSign(self.zf(i.t), self.nf(i.t))
+
+
+def vc_compute_sign(H):
+    fuc = H.fn(REL, 'Algebra._prepare_signs._compute_sign')
+    bv = z3.BitVecSort(WB)
+    SP = z3.Function('swap_parity_spec', bv, bv, z3.BoolSort())    # Inv(sI ++ sJ) xor P(sIJ): post of _swap_blades
+    for with_canon in (False, True):
+        def body(ctx, with_canon=with_canon):
+            I = SKey.fresh('I', 0, (1 << W) - 1)
+            J = SKey.fresh('J', 0, (1 << W) - 1)
+            d = SKey.fresh('d', 0, W)
+            start = SKey.fresh('start_index', 0, 15)
+            for v in (I, J, d, start):
+                ctx.assume(v.range_constraint())
+            sig = Signature(d)
+            me = sym('self', attrs={'bin2canon': Bin2Canon(), 'signature': sig, 'start_index': start})
+            m = SInt(z3.Int('n_eliminated'))
+            ctx.assume(m.t >= 0)
+            ef = z3.Function('elim_char', z3.IntSort(), z3.BitVecSort(CB))
+            calls = []
+
+            def elim_get(i):
+                c = SChar(ef(sint(i).t))
+                # naming contract N-chars: every character of a blade name is hex(g + start_index) of a generator 0 <= g < d
+                g = z3.ZeroExt(WB - CB, c.c) - start.t
+                ctx.assume(z3.And(z3.ULE(c.c, 15), g >= 0, g < d.t))
+                return c
+            elim = SymSeq(None, m, elim_get, 'str')
+            s0 = SInt(z3.Int('swaps'))
+            ctx.assume(s0.t >= 0)
+
+            class SwapStub:
+                def kvc_call(self, interp, *a, **kw):
+                    calls.append((a, kw))
+                    return (s0, SpellOf('prod'), elim)
+            ZF = z3.Function('ZeroFold', z3.IntSort(), z3.BoolSort())
+            NF = z3.Function('NegFold', z3.IntSort(), z3.BoolSort())
+            st = {}
+
+            def establish(interp, env, it):
+                sg = env.lookup('sign')
+                if it is not elim:
+                    ctx.oblige('loop iterates over the eliminated characters', False, 'inv')
+                    raise PathEnd('shape')
+                st['init'] = sg
+                ok = isinstance(sg, int) and sg in (-1, 1)
+                ctx.oblige('inv-init: sign == (-1)^swaps', z3.BoolVal(ok) if not ok else ((sg == -1) == (s0.t % 2 == 1)), 'inv')
+
+            def havoc(interp, env, it, n, at_exit):
+                init_neg = s0.t % 2 == 1
+                env.vars['sign'] = SSign(ZF(n.t), z3.Xor(init_neg, NF(n.t)))
+                st['n'] = n
+
+            def preserve(interp, env, it, n):
+                sg = env.lookup('sign')
+                c = it.get(n)
+                g = z3.ZeroExt(WB - CB, c.c) - start.t
+                z1 = z3.Or(ZF(n.t), sig.zf(g))
+                n1 = z3.Xor(NF(n.t), sig.nf(g))
+                if not isinstance(sg, SSign):
+                    ctx.oblige('inv: sign stays a sign value', False, 'inv')
+                    return
+                ctx.oblige('inv-step: sign is zero iff some eliminated generator so far is null', sg.z == z1, 'inv')
+                ctx.oblige('inv-step: sign negativity == par(swaps) xor #negative eliminated generators so far',
+                           z3.Implies(z3.Not(z1), sg.n == z3.Xor(s0.t % 2 == 1, n1)), 'inv')
+            spec = LoopSpec(establish, havoc, preserve, header='key in eliminated')
+            interp = Interp(ctx, loop_specs={('_compute_sign', 0): spec}, source_name=REL)
+            clo = H.closure(interp, fuc, {'self': me, '_swap_blades': SwapStub()})
+            if with_canon:
+                r = clo((I, J), (NameOf(I), NameOf(J)))
+            else:
+                r = clo((I, J))
+            ok = (len(calls) == 1 and len(calls[0][0]) + len(calls[0][1]) == 3)
+            if ok:
+                a = list(calls[0][0]) + [calls[0][1].get('target')] if len(calls[0][0]) == 2 else list(calls[0][0])
+                ok = (isinstance(a[0], SpellOf) and a[0].K is I and isinstance(a[1], SpellOf) and a[1].K is J
+                      and isinstance(a[2], SpellOf) and isinstance(a[2].K, SKey) and z3.eq(z3.simplify(a[2].K.t), z3.simplify(I.t ^ J.t)))
+            ctx.oblige('call: _swap_blades(name(I)[1:], name(J)[1:], target = name(I ^ J)[1:])', bool(ok))
+            n = st.get('n')
+            okr = isinstance(r, SSign) and n is not None
+            ctx.oblige('post: returns the accumulated sign', bool(okr))
+            if okr:
+                ctx.oblige('post: sign == 0  <=>  an eliminated (common) generator is null', r.z == ZF(n.t))
+                ctx.oblige('post: sign < 0  <=>  par(swaps) xor #negative common generators', 
+                           z3.Implies(z3.Not(r.z), r.n == z3.Xor(s0.t % 2 == 1, NF(n.t))))
+            return r
+        H.run_paths(fuc, f'canon_pair={"given" if with_canon else "None"}', body)
+
+
+# =====================================================================================
+# default naming: bin2canon[K] = 'e' + hex digits (i + start_index) of the set bits i of K, ascending
+# =====================================================================================
+def vc_default_naming(H):
+    """Executes the real dict comprehension of Algebra.__post_init__ (extracted by position) for a generic key eJ
+    and a generic generator index ei."""
+    import ast
+    from kvc import extract as X
+    from kvc.engine import Env, BUILTIN_ENV
+    fuc = H.fn(REL, 'Algebra.__post_init__')
+    # locate `self.bin2canon = { ... for eJ in range(2 ** self.d) }`
+    node = None
+    for n in ast.walk(fuc.ex.node):
+        if (isinstance(n, ast.Assign) and isinstance(n.value, ast.DictComp) and isinstance(n.targets[0], ast.Attribute)
+                and n.targets[0].attr == 'bin2canon' and isinstance(n.value.generators[0].iter, ast.Call)
+                and getattr(n.value.generators[0].iter.func, 'id', '') == 'range'):
+            node = n
+
+    def body(ctx):
+        if node is None:
+            raise OutOfSubset('default-basis bin2canon comprehension not found in __post_init__')
+        d = SKey.fresh('d', 0, W)
+        start = SKey.fresh('start_index', 0, 15)
+        ctx.assume(d.range_constraint())
+        ctx.assume(start.range_constraint())
+        ctx.assume(d.t + start.t <= 16)           # admissible: every generator gets a single hex digit
+        me = sym('self', attrs={'d': d, 'start_index': start})
+        interp = Interp(ctx, source_name=REL)
+        env = Env(dict(BUILTIN_ENV))
+        env.vars['self'] = me
+        r = interp.eval(node.value, env)
+        ok = isinstance(r, CompSeq) and r.kind == 'dict'
+        ctx.oblige('shape: bin2canon = {key: name for key in range(2 ** d)}', bool(ok))
+        if not ok:
+            return r
+        i = SInt(z3.Int('i'))
+        ctx.assume(z3.And(i.t >= 0, i.t < r.src.kvc_len().t))
+        cond, (k, name) = r.at(i)
+        ctx.oblige('naming: every key 0 <= K < 2**d gets a name', cond is True)
+        ctx.oblige('naming: keys are the ints of range(2 ** d)', z3.And(k.t >= 0, k.t < (z3.BitVecVal(1, WB) << d.t)))
+        from kvc.models import JoinText
+        okn = (isinstance(name, Text) and len(name.parts) == 2 and name.parts[0] == 'e'
+               and isinstance(name.parts[1], JoinText) and name.parts[1].sep == '' and isinstance(name.parts[1].xs, CompSeq))
+        ctx.oblige("naming: name == 'e' + ''.join(<one digit per selected generator>)", bool(okn))
+        if not okn:
+            return r
+        gen = name.parts[1].xs
+        j = SInt(z3.Int('j'))
+        ctx.assume(z3.And(j.t >= 0, j.t < gen.src.kvc_len().t))
+        c2, ch = gen.at(j)
+        ei = gen.src.get(j)
+        # the generic generator index visited at position j (ascending order: range(0, d))
+        bit_set = (z3.LShR(k.t, ei.t) & 1) == 1
+        c2t = c2.t if isinstance(c2, SBool) else z3.BoolVal(bool(c2))
+        ctx.oblige('naming: generators are visited in ascending order 0..d-1',
+                   z3.And(ei.t >= 0, ei.t < d.t, z3.BV2Int(ei.t) == j.t))
+        ctx.oblige('naming: a digit is emitted  <=>  that bit of the key is set', c2t == bit_set)
+        okc = isinstance(ch, SChar)
+        ctx.oblige('naming: the digit is a single hex character', bool(okc))
+        if okc:
+            ctx.oblige('naming: the digit of generator i is hex(i + start_index)',
+                       z3.Implies(bit_set, z3.ZeroExt(WB - CB, ch.c) == ei.t + start.t))
+        return r
+    H.run_paths(fuc, 'default-basis naming', body)
+
+
+# =====================================================================================
+# cayley, _prepare_signs (eager and lazy), DefaultKeyDict.__missing__
+# =====================================================================================
+class NameFmt:
+    pass
+
+
+def _name_kvc_format(self, interp, spec):
+    if spec:
+        raise OutOfSubset('format spec on a blade name')
+    return self
+
+
+NameOf.kvc_format = _name_kvc_format
+NameOf.kvc_eq = lambda self, interp, other: isinstance(other, NameOf) and interp.eq(self.K, other.K)
+
+
+class Canon2BinItems(SymSeq):
+    """self.canon2bin.items(): pairs (name of K, K) over all blades (naming contract: canon2bin is the inverse of bin2canon)."""
+
+    def __init__(self, ctx, N):
+        n = SInt(z3.Int('n_blades'))
+        kf = z3.Function('blade_at', z3.IntSort(), z3.BitVecSort(WB))
+
+        def get(i):
+            k = SKey(kf(sint(i).t), 0, (1 << W) - 1)
+            ctx.assume(z3.And(k.t >= 0, k.t < N.t))
+            return (NameOf(k), k)
+        super().__init__(None, n, get, 'items')
+
+
+class PairDict:
+    """dict keyed by pairs, recording stores (for loops that fill a table)."""
+
+    def __init__(self, tag):
+        self.tag = tag
+        self.stores = []
+
+    def kvc_setitem(self, interp, k, v):
+        self.stores.append((k, v))
+
+
+def _algebra_self(ctx):
+    N = SKey.fresh('alg_N', 1, 1 << W)
+    ctx.assume(N.range_constraint())
+    ctx.assume(N.t & (N.t - 1) == 0)
+    d = SKey.fresh('d', 0, W)
+    ctx.assume(d.range_constraint())
+    from kvc.models import SignsTable
+    signs = SignsTable()
+    ctx.ghost['N'] = N
+
+    class C2B:
+        def items(self):
+            return Canon2BinItems(ctx, N)
+    me = sym('self', attrs={'bin2canon': Bin2Canon(), 'canon2bin': C2B(), 'signs': signs, 'd': d})
+    return me, N, d, signs
+
+
+def vc_cayley(H):
+    """C01: the Cayley table reported by the algebra is the sign table: entry (name I, name J) is '0' when
+    signs[I,J] == 0, else ['-'] + name(I ^ J)."""
+    fuc = H.fn(REL, 'Algebra.cayley')
+
+    def body(ctx):
+        me, N, d, signs = _algebra_self(ctx)
+        st = {}
+
+        def establish(interp, env, it):
+            c = env.lookup('cayley')
+            ctx.oblige('inv-init: the table starts empty', isinstance(c, dict) and not c, 'inv')
+
+        def havoc(interp, env, it, n, at_exit):
+            st['tab'] = PairDict('cayley')
+            env.vars['cayley'] = st['tab']
+
+        def preserve(interp, env, it, n):
+            (eI, I), (eJ, J) = it.get(n)
+            tab = env.lookup('cayley')
+            ok = tab is st['tab'] and len(tab.stores) == 1
+            ctx.oblige('inv-step: exactly one entry is written per pair', bool(ok), 'inv')
+            if not ok:
+                return
+            k, v = tab.stores[0]
+            okk = isinstance(k, tuple) and len(k) == 2 and all(isinstance(x, NameOf) for x in k)
+            ctx.oblige('inv-step: the entry is keyed by (name(I), name(J))',
+                       z3.BoolVal(False) if not okk else z3.And(k[0].K.t == I.t, k[1].K.t == J.t), 'inv')
+            s = signs.at(I, J)
+            if v == '0':
+                ctx.oblige("inv-step: '0' only where signs[I,J] == 0", s.z, 'inv')
+            else:
+                parts = v.parts if isinstance(v, Text) else [v]
+                parts = [p for p in parts if p != '']
+                neg = len(parts) == 2 and parts[0] == '-'
+                nm = parts[-1]
+                okv = isinstance(nm, NameOf) and len(parts) in (1, 2) and (len(parts) == 1 or neg)
+                ctx.oblige("inv-step: entry is ['-'] + name of the product blade", bool(okv), 'inv')
+                if okv:
+                    ctx.oblige('inv-step: product blade is I ^ J', nm.K.t == (I.t ^ J.t), 'inv')
+                    ctx.oblige('inv-step: non-zero entry only where signs[I,J] != 0', z3.Not(s.z), 'inv')
+                    ctx.oblige("inv-step: '-' prefix  <=>  signs[I,J] == -1", z3.Implies(z3.Not(s.z), s.n == z3.BoolVal(neg)), 'inv')
+        spec = LoopSpec(establish, havoc, preserve)
+        interp = Interp(ctx, loop_specs={('cayley', 0): spec}, source_name=REL)
+        r = H.closure(interp, fuc)(me)
+        ctx.oblige('post: returns the filled table', r is st.get('tab'))
+        return r
+    H.run_paths(fuc, '', body)
+
+
+def vc_prepare_signs(H):
+    """The sign table is _compute_sign for every pair: eagerly stored for d <= 6, computed on first access and
+    stored for d > 6 (DefaultKeyDict) -- the same function either way."""
+    fuc = H.fn(REL, 'Algebra._prepare_signs')
+    from kvc.engine import Closure
+    for lazy in (None,):
+        def body(ctx, lazy=lazy):
+            me, N, d, signs = _algebra_self(ctx)
+            # the eager/lazy threshold is a performance choice: either outcome is accepted for every d
+            st = {'calls': []}
+            made = []
+
+            def hook(interp, f, args, kwargs):
+                if isinstance(f, Closure) and f.qualname.endswith('._compute_sign'):
+                    st['calls'].append((args, kwargs))
+                    return sym('sign-value', attrs={'args': (tuple(args), dict(kwargs))})
+                return NotImplemented
+
+            def establish(interp, env, it):
+                c = env.lookup('signs')
+                ctx.oblige('inv-init: the table starts empty', isinstance(c, dict) and not c, 'inv')
+
+            def havoc(interp, env, it, n, at_exit):
+                st['tab'] = PairDict('signs')
+                env.vars['signs'] = st['tab']
+                st['calls'].clear()
+
+            def preserve(interp, env, it, n):
+                (eI, I), (eJ, J) = it.get(n)
+                tab = env.lookup('signs')
+                ok = tab is st['tab'] and len(tab.stores) == 1 and len(st['calls']) == 1
+                ctx.oblige('inv-step: one _compute_sign call and one store per pair', bool(ok), 'inv')
+                if not ok:
+                    return
+                k, v = tab.stores[0]
+                args, kw = st['calls'][0]
+                okk = isinstance(k, tuple) and len(k) == 2 and all(isinstance(x, SKey) for x in k)
+                ctx.oblige('inv-step: stored under the key (I, J)',
+                           z3.BoolVal(False) if not okk else z3.And(k[0].t == I.t, k[1].t == J.t), 'inv')
+                a = list(args) + [kw[x] for x in ('bin_pair', 'canon_pair') if x in kw]
+                oka = (len(a) >= 1 and isinstance(a[0], tuple) and len(a[0]) == 2 and all(isinstance(x, SKey) for x in a[0]))
+                ctx.oblige('inv-step: the value is _compute_sign((I, J), ...)',
+                           z3.BoolVal(False) if not oka else z3.And(a[0][0].t == I.t, a[0][1].t == J.t, z3.BoolVal(isinstance(v, Rec) and v.attrs.get('args') is not None)), 'inv')
+                if oka and len(a) > 1 and a[1] is not None:
+                    c = a[1]
+                    okc = isinstance(c, tuple) and len(c) == 2 and all(isinstance(x, NameOf) for x in c)
+                    ctx.oblige('inv-step: the names passed along are those of I and J (same function as the lazy path)',
+                               z3.BoolVal(False) if not okc else z3.And(c[0].K.t == I.t, c[1].K.t == J.t), 'inv')
+
+            class DKD:
+                def kvc_call(self, interp, factory):
+                    made.append(factory)
+                    return ('DefaultKeyDict', factory)
+            spec = LoopSpec(establish, havoc, preserve)
+            interp = Interp(ctx, loop_specs={('_prepare_signs', 0): spec}, source_name=REL, call_hook=hook)
+            r = H.closure(interp, fuc, {'DefaultKeyDict': DKD()})(me)
+            ok_lazy = (isinstance(r, tuple) and r[0] == 'DefaultKeyDict' and isinstance(r[1], Closure)
+                       and r[1].qualname.endswith('._compute_sign'))
+            ok_eager = st.get('tab') is not None and r is st.get('tab')
+            ctx.oblige('post: returns the eagerly filled table, or DefaultKeyDict(_compute_sign) whose entries are '
+                       'computed by the same function on first access', bool(ok_lazy or ok_eager))
+            return r
+        H.run_paths(fuc, '', body)
+    fuc2 = H.fn(REL, 'DefaultKeyDict.__missing__')
+
+    def body2(ctx):
+        fac = sym('factory')
+        me = sym('self', attrs={'factory': fac})
+        key = sym('key')
+        interp = Interp(ctx, source_name=REL)
+        r = H.closure(interp, fuc2)(me, key)
+        exp = Rec('call', fac, (key,), {})
+        stores = [e for e in ctx.events if e[0] == 'setitem']
+        ctx.oblige('post: self[key] = factory(key) is stored once and returned',
+                   same(r, exp) and len(stores) == 1 and stores[0][1] is me and same(stores[0][2], key) and same(stores[0][3], exp))
+        return r
+    H.run_paths(fuc2, '', body2)
+
+
+# =====================================================================================
+# _blade2canon / BladeDict.__getitem__ : sign of non-canonical spellings
+# =====================================================================================
+class GenName:
+    """f'e{c}': the name of the vector with generator character c."""
+
+    def __init__(self, c):
+        self.c = c
+
+
+def _schar_format(self, interp, spec):
+    return GenName(self)
+
+
+def vc_blade2canon(H):
+    """For a spelling (any order) of distinct generator characters: returns (canonical name of the blade with those
+    generators, swaps) where swaps comes from _swap_blades(spelling, '', target=canonical name); a spelling that uses
+    a generator outside the algebra returns the out-of-space marker; a canonical name is returned unchanged with 0 swaps."""
+    fuc = H.fn(REL, 'Algebra._blade2canon')
+    import operator
+    import functools
+    for n in (1, 2, 3):
+        for variant in ('permuted', 'canonical'):
+            def body(ctx, n=n, variant=variant):
+                N = SKey.fresh('alg_N', 1, 1 << W)
+                ctx.assume(N.range_constraint())
+                ctx.assume(N.t & (N.t - 1) == 0)
+                d = SKey.fresh('d', 0, W)
+                ctx.assume(d.range_constraint())
+                ctx.assume(N.t == (z3.BitVecVal(1, WB) << d.t))
+                chars = _cells('s', n)
+                ctx.assume(_distinct(chars))
+                bitf = z3.Function('gen_bit', z3.BitVecSort(CB), z3.BitVecSort(WB))   # vec2bin: generator char -> its bit
+                known = z3.Function('gen_known', z3.BitVecSort(CB), z3.BoolSort())
+                name = Spelling(['e'] + chars)
+                name.is_canon = (variant == 'canonical')
+                calls = []
+                old = SChar.__dict__.get('kvc_format')
+                SChar.kvc_format = _schar_format
+
+                class C2B:
+                    def kvc_contains(self, interp, item):
+                        if item is name:
+                            return name.is_canon
+                        raise OutOfSubset('canon2bin membership of an unmodelled name')
+
+                    def get(self, key, default=None):
+                        if isinstance(key, Text) and len(key.parts) == 2 and key.parts[0] == 'e':
+                            key = key.parts[1]
+                        if isinstance(key, GenName) and isinstance(key.c, SChar):
+                            c = key.c.c
+                            bit = SKey(bitf(c), 1, 1 << (W - 1))
+                            # naming contract: a known generator maps to a single bit below 2**d; distinct chars -> distinct bits
+                            ctx.assume(z3.Implies(known(c), z3.And(bit.t & (bit.t - 1) == 0, bit.t != 0, z3.ULT(bit.t, N.t))))
+                            m = merge(known(c), bit, default if isinstance(default, SKey) else SKey.const(default))
+                            return m
+                        raise OutOfSubset('canon2bin.get of an unmodelled key')
+
+                class B2C:
+                    def get(self, key, default=None):
+                        if not isinstance(key, SKey):
+                            raise OutOfSubset('bin2canon.get of a non-int')
+                        if ctx.decide(z3.And(key.t >= 0, key.t < N.t)):
+                            return NameOf(key)
+                        return default
+                me = sym('self', attrs={'canon2bin': C2B(), 'bin2canon': B2C(), 'd': d})
+
+                class SwapStub:
+                    def kvc_call(self, interp, *a, **kw):
+                        calls.append((a, kw))
+                        return (sym('swaps'), 'prod', 'elim')
+                from kvc.values import merge
+                interp = Interp(ctx, source_name=REL)
+                try:
+                    r = H.closure(interp, fuc, {'_swap_blades': SwapStub(), 'reduce': functools.reduce, 'operator': operator})(me, name)
+                finally:
+                    if old is None:
+                        del SChar.kvc_format
+                    else:
+                        SChar.kvc_format = old
+                if variant == 'canonical':
+                    ctx.oblige('post: a canonical name is returned as is with 0 swaps', isinstance(r, tuple) and r[0] is name and r[1] == 0 and not calls)
+                    return r
+                allknown = z3.And([known(c.c) for c in chars])
+                mask = functools.reduce(lambda a, b: a | b, [bitf(c.c) for c in chars])
+                valid = ctx.decide(allknown)
+                if valid:
+                    ok = (isinstance(r, tuple) and len(r) == 2 and isinstance(r[0], NameOf) and len(calls) == 1
+                          and isinstance(r[1], Rec) and r[1].parts[0] == 'swaps')
+                    ctx.oblige('post: (canonical name, swaps of _swap_blades)', bool(ok))
+                    if ok:
+                        ctx.oblige('post: the canonical blade is the one with exactly the spelled generators', r[0].K.t == mask)
+                        a, kw = calls[0]
+                        tgt = kw.get('target', a[2] if len(a) > 2 else None)
+                        ctx.oblige("call: _swap_blades(spelling, '', target=canonical name)",
+                                   a[0] is name and a[1] == '' and tgt is r[0])
+                else:
+                    ok = isinstance(r, tuple) and len(r) == 2 and r[1] == 0 and not calls and not isinstance(r[0], NameOf)
+                    ctx.oblige('post: a generator outside the algebra yields the out-of-space marker and 0 swaps', bool(ok))
+                return r
+            H.run_paths(fuc, f'len={n},{variant}', body)
+
+
+def vc_bladedict_getitem(H):
+    """blades[spelling] == (-1)^swaps * blades[canonical name]  (C01: named blade = ordered product; C15 accessors)."""
+    fuc = H.fn(REL, 'BladeDict.__getitem__')
+    import re as _re
+
+    class ReModel:
+        @staticmethod
+        def match(pattern, name):
+            if pattern != r'^e[0-9a-fA-F]*$':
+                raise OutOfSubset('blade-name pattern changed')
+            return name.valid
+    for valid in (True, False):
+        for cached in (True, False):
+            def body(ctx, valid=valid, cached=cached):
+                swaps = SInt(z3.Int('swaps'))
+                ctx.assume(swaps.t >= 0)
+                canon = sym('canonical-name')
+                name = sym('requested-name')
+                name.valid = valid
+                graded = SBool(z3.Bool('graded'))
+                blade = sym('stored-blade')
+                blades = sym('blades', on_contains=lambda i, me, item: cached and same(item, canon),
+                             on_getitem=lambda i, me, idx: blade)
+                alg = sym('algebra', attrs={'graded': graded,
+                                            '_blade2canon': sym('_blade2canon', callable_result=lambda i, m, a, k: (canon, swaps))})
+                me = sym('self', attrs={'algebra': alg, 'blades': blades})
+                interp = Interp(ctx, source_name=REL)
+                MVc = sym('MultiVector')
+                try:
+                    r = H.closure(interp, fuc, {'re': ReModel, 'MultiVector': MVc})(me, name)
+                    raised = None
+                except AttributeError as e:
+                    r, raised = None, e
+                if not valid:
+                    ctx.oblige('post: a name that is not e<hex digits> raises AttributeError', raised is not None)
+                    if raised:
+                        raise raised
+                    return r
+                if raised:
+                    ctx.oblige('post: valid names do not raise', False)
+                    raise raised
+                stores = [e for e in ctx.events if e[0] == 'setitem']
+                if cached:
+                    ctx.oblige('post: an existing blade is not rebuilt', not stores)
+                else:
+                    ctx.oblige('post: the blade is stored under its canonical name', len(stores) == 1 and stores[0][1] is blades and same(stores[0][2], canon))
+                    if stores:
+                        blade_v = stores[0][3]
+                    else:
+                        return r
+                b = blade if cached else stores[0][3]
+                odd = ctx.decide(swaps.t % 2 == 1)
+                exp = Rec('unop', 'USub', b) if odd else b
+                ctx.oblige('post: blade by any spelling == (-1)^swaps * canonical blade', same(r, exp), meta={'got': repr(r), 'expected': repr(exp)})
+                return r
+            H.run_paths(fuc, f'valid={valid},cached={cached}', body)
